@@ -169,6 +169,11 @@ func (e *Engine) VerifyFunc(fc *FuncContract) *FuncResult {
 	if fc.Lemma {
 		return e.verifyLemma(fc, res)
 	}
+	if fc.Trusted != "" {
+		// the contract is an assumption (listed as such); the body is not verified
+		res.Assumed = append(res.Assumed, res.Key+" (assumed: "+fc.Trusted+")")
+		return res
+	}
 	fn0 := e.FuncOf[fc]
 	fn, err := e.instanceOf(fc, fn0)
 	if err != nil {
